@@ -892,6 +892,71 @@ def ob_numeric_split():
     return held("%d operators, worst %.1e; mixed real/complex grid-function lists (4 patterns) packed, unpacked and mapped by a blocked operator" % (len(ops), worst))
 
 
+def replay_inverse_mass():
+    """Native contract of the inverse mass matrix behind strong forms and products (InverseSparseDiscreteBoundaryOperator / _Solver): for a square
+    matrix M (symmetric or not, any scipy storage the sparse operator accepts, real or complex) the operator applies M^-1 (reference: dense
+    numpy.linalg.solve); for a thin matrix the least-squares pseudo-inverse (M^H M)^-1 M^H, for a thick one M^H (M M^H)^-1; and on a pair of
+    DIFFERENT spaces with equal dof counts (P1 / DP0 on an irregular tetrahedron: square, non-symmetric mass matrix)
+    strong_form == M^-1 W and weak_form(A*B) == W_A M^-1 W_B."""
+    import bempp_cl.api as api
+    import scipy.sparse as sps
+    from bempp_cl.api.operators.boundary import laplace, sparse
+    from bempp_cl.api.assembly.discrete_boundary_operator import InverseSparseDiscreteBoundaryOperator, SparseDiscreteBoundaryOperator
+
+    warnings.simplefilter("ignore")
+    rng = np.random.RandomState(11)
+    problems = []
+    for cplx in (False, True):
+        for shape in ((5, 5), (6, 4), (4, 6)):
+            A = rng.randn(*shape) * (rng.rand(*shape) < 0.7) + (1j * rng.randn(*shape) if cplx else 0)
+            A[:min(shape), :min(shape)] += 3 * np.eye(min(shape))
+            if shape[0] == shape[1]:
+                want = np.linalg.inv(A)
+            elif shape[0] > shape[1]:
+                want = np.linalg.solve(A.conj().T @ A, A.conj().T)
+            else:
+                want = A.conj().T @ np.linalg.inv(A @ A.conj().T)
+            for fmt in ("csr", "csc", "coo"):
+                op = InverseSparseDiscreteBoundaryOperator(SparseDiscreteBoundaryOperator(getattr(sps, fmt + "_matrix")(A)))
+                x = rng.randn(shape[0]) + 1j * rng.randn(shape[0])
+                X = rng.randn(shape[0], 2)
+                e = max(Z.relerr(op @ x, want @ x), Z.relerr(op @ X, want @ X))
+                if op.shape != want.shape or e > 1e-11:
+                    problems.append("inverse of a %s %s %dx%d matrix: shape %s, deviation %.2e from the dense (pseudo-)inverse" % ("complex" if cplx else "real", fmt, shape[0], shape[1], op.shape, e))
+    verts = np.array([[0.0, 1.1, 0.2, 0.3], [0.0, 0.1, 0.9, 0.4], [0.0, -0.1, 0.2, 1.3]])
+    els = np.array([[0, 0, 0, 1], [2, 1, 3, 2], [1, 3, 2, 3]], dtype="uint32")
+    g = SG.make_grid(verts, els)
+    p1, dp0 = api.function_space(g, "P", 1), api.function_space(g, "DP", 0)
+    par = Z.params(3, 3)
+    M = np.asarray(sparse.identity(p1, p1, dp0, parameters=par).weak_form().to_dense())
+    if M.shape == (4, 4) and np.abs(M - M.T).max() > 1e-3:
+        B = laplace.single_layer(dp0, p1, dp0, parameters=par)
+        Acomp = laplace.single_layer(p1, dp0, dp0, parameters=par)
+        WB, WA = np.asarray(B.weak_form().to_dense()), np.asarray(Acomp.weak_form().to_dense())
+        e = Z.relerr(np.asarray(B.strong_form().to_dense()), np.linalg.solve(M, WB))
+        if e > 1e-11:
+            problems.append("strong_form with range P1, dual DP0 on the tetrahedron (square non-symmetric mass matrix): deviation %.2e from M^-1 W" % e)
+        e = Z.relerr(np.asarray((Acomp * B).weak_form().to_dense()), WA @ np.linalg.solve(M, WB))
+        if e > 1e-11:
+            problems.append("weak_form(A*B) with B's range P1, dual DP0: deviation %.2e from W_A M^-1 W_B" % e)
+        c = rng.randn(4) + 1j * rng.randn(4)
+        e = Z.relerr((B * api.GridFunction(dp0, coefficients=c)).coefficients, np.linalg.solve(M, WB @ c))
+        if e > 1e-11:
+            problems.append("(B*f).coefficients with B's range P1, dual DP0: deviation %.2e from M^-1 W c" % e)
+    else:
+        problems.append("vacuous: the P1/DP0 mass matrix of the test tetrahedron is not a square non-symmetric matrix")
+    return {"violates": bool(problems), "problems": problems}
+
+
+def ob_inverse_mass():
+    """bounded: see replay_inverse_mass"""
+    r = replay_inverse_mass()
+    if r["violates"]:
+        return violated("inverse mass matrix: %s" % "; ".join(r["problems"][:3]), witness={"problems": r["problems"]}, signature="inverse-mass",
+                        replay={"callable": "checks.c14:replay_inverse_mass", "kwargs": {}, "confirmed": True, "result": r})
+    return held("square (symmetric / non-symmetric), thin and thick matrices in csr / csc / coo storage, real and complex; strong form, product and operator * function on P1 / DP0 of a tetrahedron")
+
+
 def replay_numeric_split():
     r = ob_numeric_split()
     return {"violates": r["status"] == "violated", "detail": r["detail"]}
@@ -918,6 +983,7 @@ def main():
     run.add("potential-operators.algebra", "post", ob_potential_algebra)
     run.add("potential-operators.algebra::native[octa, Laplace single + double layer, complex density]", "bounded", ob_potential_native)
     run.add("numeric.real-operator-on-complex-vector+sparse-classes", "bounded", ob_numeric_split)
+    run.add("inverse-mass-matrix.non-symmetric+rectangular[native; the symbolic algebra above replaces it by its contract]", "bounded", ob_inverse_mass)
     run.bound("generic matrices of shapes 2x3, 3x2, 2x2, 3x3 (discrete, complex entries) and 2x4, 4x6, 4x4 ... (real entries; spaces on a 2-element grid); trees of depth <= 2 "
               "(discrete trees of depth 2 only in the thorough tier); expression trees of any depth follow by structural induction over the constructor contracts")
     run.assume("polynomial identity in the matrix entries for fixed small shapes implies the matrix identity for all shapes (the classes never inspect sizes beyond shape checks)")
